@@ -1,7 +1,7 @@
 (** * Pipe/ProofsConverse4.v — converse source tie, part 4: the steps a Writer takes on its own. *)
 From Coq Require Import ZArith List String Bool Lia Permutation.
 From Texel Require Import Pipe.Model Pipe.ProofsBase Pipe.ProofsInv Pipe.ProofsLive Pipe.Skeleton Pipe.SkeletonSem Pipe.SkeletonSim
-  Pipe.ProofsSkeleton Pipe.ConversePc Pipe.ConversePcSn Pipe.ProofsConversePc Pipe.ProofsConversePcSn Pipe.Converse
+  Pipe.ProofsSkeleton Pipe.ConversePc Pipe.ConversePcSn Pipe.ProofsConversePc Pipe.ProofsConversePcSn Pipe.Converse Pipe.ConverseRank
   Pipe.ProofsConverse1 Pipe.ProofsConverse2.
 Import ListNotations.
 Open Scope string_scope.
@@ -154,7 +154,7 @@ Lemma step_writer : forall cfg roles chans wgs s t chm z v n pc c g' ev,
   NoDup (c_targets cfg) ->
   coh cfg roles chans wgs s -> s_panic s = None -> nth_error roles t = Some (RoWriter chm z v n pc) ->
   gstep P (MkG (map (th_of (c_targets cfg)) roles) chans wgs None) (ALocal t c) = Some (g', ev) ->
-  exists s', mstep cfg s s' /\ skel_rel cfg g' s'.
+  exists s', rstep cfg roles s g' s'.
 Proof.
   intros cfg roles chans wgs s t chm z v n pc c g' ev Hndts Hcoh Hpan Hn Hg.
   destruct (coh_inv_late _ _ _ _ _ _ _ Hcoh Hn) as (pm & Hm & Hnd & He & Hmain & Hlate); [discriminate|].
@@ -181,8 +181,8 @@ Proof.
   - (* the Router is still in its spawn loop: the Writer is in front of its first receive *)
     destruct (rt_spawning_core _ _ _ _ _ _ _ _ Ep Hcore) as [_ Hopen].
     assert (Htau : forall pc', prerecv pc' = true ->
-              skel_rel cfg (MkG (map (th_of (c_targets cfg)) (upd_nth t (ro' pc') roles)) chans wgs None) s).
-    { intros pc' Hpre. apply skel_rel_intro; [exact Hpan|].
+              coh cfg (upd_nth t (ro' pc') roles) chans wgs s).
+    { intros pc' Hpre.
       eapply coh_upd; eauto; [discriminate|]. subst chans wgs.
       destruct (Hrest pc' s eq_refl eq_refl) as (H1 & H2 & H3).
       apply (late_intro cfg pm _ s wch wrest prt H1 H2 H3). exists done. split; [exact Hcore|].
@@ -190,7 +190,7 @@ Proof.
       rewrite Ep in *. eapply writers_pre_upd; eauto. }
     destruct pc; try discriminate Hphase; cbn [next_wr] in En; invo En q k; specialize (Heff I Hg);
       cbn [shared_effect K] in Heff.
-    1-4: subst g'; exists s; (split; [now left|]); apply Htau; reflexivity.
+    1-4: subst g'; exists s; (apply rstep_silent; [apply Htau; reflexivity | left; eapply rank_sum_upd; [exact Hn | cbn; lia]]).
     destruct Heff as [Hc _]. subst chans. change (nth_error wch i = Some true) in Hc.
     pose proof (allopen_nth _ _ _ Hopen Hc). discriminate.
   - (* the Router has left its spawn loop *)
@@ -202,22 +202,20 @@ Proof.
               find_writer z ws' = Some w' -> wr_rel pc' (w_st w') -> w_closed w' = w_closed w ->
               (forall z', z' <> z -> find_writer z' ws' = find_writer z' (s_wr s)) ->
               map w_tm ws' = map w_tm (s_wr s) -> (wgR' = s_wgR s \/ s_wgR s <> 0%nat) ->
-              skel_rel cfg (MkG (map (th_of (c_targets cfg)) (upd_nth t (ro' pc') roles)) chans (s_wgM s :: [wgR']) None)
-                       (set_wgR (set_wr s ws') wgR')).
-    { intros pc' ws' wgR' w' H1 H2 H3 H4 H5 H6. apply skel_rel_intro; [exact Hpan|].
+              coh cfg (upd_nth t (ro' pc') roles) chans (s_wgM s :: [wgR']) (set_wgR (set_wr s ws') wgR')).
+    { intros pc' ws' wgR' w' H1 H2 H3 H4 H5 H6.
       eapply coh_upd; eauto; [discriminate|]. subst chans.
       destruct (Hrest pc' (set_wgR (set_wr s ws') wgR') eq_refl eq_refl) as (R1 & R2 & R3).
       apply (late_intro cfg pm _ (set_wgR (set_wr s ws') wgR') wch [wgR'] prt R1 R2 R3). cbn [s_rt s_wr s_wgR set_wgR set_wr].
       exists done. split; [eapply rt_core_run_upd; eauto|].
       destruct Hview as [Hb Hv]. split; [eapply writers_bound_upd; eauto|].
       rewrite Ep in *. eapply writers_run_upd; eauto. now rewrite H3. }
-    assert (Htau : forall pc', wr_rel pc' (w_st w) ->
-              exists s', mstep cfg s s' /\
-                skel_rel cfg (MkG (map (th_of (c_targets cfg)) (upd_nth t (ro' pc') roles)) chans wgs None) s').
-    { intros pc' Hr. exists s. split; [now left|].
+    assert (Htau : forall pc', (rank_wr pc' < rank_wr pc)%nat -> wr_rel pc' (w_st w) ->
+              exists s', rstep cfg roles s (MkG (map (th_of (c_targets cfg)) (upd_nth t (ro' pc') roles)) chans wgs None) s').
+    { intros pc' Hrk Hr. exists s.
       pose proof (Hgo pc' (s_wr s) (s_wgR s) w Hfw Hr eq_refl (fun _ _ => eq_refl) eq_refl (or_introl eq_refl)) as H.
       replace (set_wgR (set_wr s (s_wr s)) (s_wgR s)) with s in H by (destruct s; reflexivity).
-      subst wgs wrest. exact H. }
+      subst wgs wrest. apply rstep_silent; [exact H|]. left. eapply rank_sum_upd; [exact Hn | exact Hrk]. }
     assert (Hupd : forall g0, (forall x, w_tm (g0 x) = w_tm x) ->
               (forall z', z' <> z -> find_writer z' (upd_writer z g0 (s_wr s)) = find_writer z' (s_wr s))
               /\ map w_tm (upd_writer z g0 (s_wr s)) = map w_tm (s_wr s)
@@ -228,25 +226,25 @@ Proof.
       - rewrite find_upd_same by exact Hg0. now rewrite Hfw. }
     destruct pc; cbn [next_wr] in En; cbn [wr_rel] in Hwr;
       try (invo En q k; specialize (Heff I Hg); cbn [shared_effect K] in Heff; subst g';
-           apply Htau; cbn [wr_rel]; solve [exact Hwr | eauto]; fail).
+           apply Htau; [cbn; lia | cbn [wr_rel]; solve [exact Hwr | eauto]]; fail).
     + (* WRv: receive on the closed channel = LWriterEof *)
       invo En q k. specialize (Heff I Hg). cbn [shared_effect] in Heff. destruct Heff as [Hc ->].
       subst chans. change (nth_error wch i = Some true) in Hc. rewrite Hwc in Hc. inversion Hc as [Hcl].
       destruct (Hupd (w_set_st WFin) (fun _ => eq_refl)) as (U1 & U2 & U3).
-      exists (set_wr s (upd_writer z (w_set_st WFin) (s_wr s))). split.
-      * right. exists (LWriterEof z). rewrite (step_late _ _ _ pm Hpan Hmain). cbn. rewrite Hfw, Hwr, Hcl. reflexivity.
-      * pose proof (Hgo (WG false) _ (s_wgR s) _ U3 eq_refl eq_refl U1 U2 (or_introl eq_refl)) as H.
+      exists (set_wr s (upd_writer z (w_set_st WFin) (s_wr s))). right. split.
+      * exists (LWriterEof z). rewrite (step_late _ _ _ pm Hpan Hmain). cbn. rewrite Hfw, Hwr, Hcl. reflexivity.
+      * apply skel_rel_intro; [exact Hpan|]. pose proof (Hgo (WG false) _ (s_wgR s) _ U3 eq_refl eq_refl U1 U2 (or_introl eq_refl)) as H.
         replace (set_wgR (set_wr s (upd_writer z (w_set_st WFin) (s_wr s))) (s_wgR s))
           with (set_wr s (upd_writer z (w_set_st WFin) (s_wr s))) in H by (destruct s; reflexivity).
         subst wgs wrest. exact H.
     + (* WG *)
-      destruct b; invo En q k; specialize (Heff I Hg); cbn [shared_effect K] in Heff; subst g'; apply Htau; exact Hwr.
+      destruct b; invo En q k; specialize (Heff I Hg); cbn [shared_effect K] in Heff; subst g'; (apply Htau; [cbn; lia | exact Hwr]).
     + (* WH: handle(feature) = LRecv *)
       invo En q k. specialize (Heff I Hg). cbn [shared_effect K] in Heff. subst g'. destruct Hwr as [m Hm0].
       destruct (Hupd (w_handle m) (fun _ => eq_refl)) as (U1 & U2 & U3).
-      exists (set_wr s (upd_writer z (w_handle m) (s_wr s))). split.
-      * right. exists (LRecv z m). rewrite (step_late _ _ _ pm Hpan Hmain). cbn. rewrite Hfw, Hm0, msg_eqb_refl. reflexivity.
-      * pose proof (Hgo WS _ (s_wgR s) _ U3 eq_refl eq_refl U1 U2 (or_introl eq_refl)) as H.
+      exists (set_wr s (upd_writer z (w_handle m) (s_wr s))). right. split.
+      * exists (LRecv z m). rewrite (step_late _ _ _ pm Hpan Hmain). cbn. rewrite Hfw, Hm0, msg_eqb_refl. reflexivity.
+      * apply skel_rel_intro; [exact Hpan|]. pose proof (Hgo WS _ (s_wgR s) _ U3 eq_refl eq_refl U1 U2 (or_introl eq_refl)) as H.
         replace (set_wgR (set_wr s (upd_writer z (w_handle m) (s_wr s))) (s_wgR s))
           with (set_wr s (upd_writer z (w_handle m) (s_wr s))) in H by (destruct s; reflexivity).
         subst wgs wrest. exact H.
@@ -255,10 +253,11 @@ Proof.
       subst wgs wrest. cbn [nth_error] in Heff.
       destruct Heff as [(v0 & Hv0 & ->)|[Hv0 Hp]]; inversion Hv0 as [Hw0].
       * destruct (Hupd (w_set_st WDone) (fun _ => eq_refl)) as (U1 & U2 & U3).
-        exists (set_wgR (set_wr s (upd_writer z (w_set_st WDone) (s_wr s))) v0). split.
-        -- right. exists (LFinish z). rewrite (step_late _ _ _ pm Hpan Hmain). cbn. rewrite Hfw, Hwr, Hw0. reflexivity.
-        -- cbn [upd_nth]. apply (Hgo WF5 _ v0 _ U3 eq_refl eq_refl U1 U2). right. lia.
-      * exists (set_panic s PanicWaitGroup). split.
-        -- right. exists (LFinish z). rewrite (step_late _ _ _ pm Hpan Hmain). cbn. rewrite Hfw, Hwr, Hw0. reflexivity.
+        exists (set_wgR (set_wr s (upd_writer z (w_set_st WDone) (s_wr s))) v0). right. split.
+        -- exists (LFinish z). rewrite (step_late _ _ _ pm Hpan Hmain). cbn. rewrite Hfw, Hwr, Hw0. reflexivity.
+        -- cbn [upd_nth]. apply skel_rel_intro; [exact Hpan|]. apply (Hgo WF5 _ v0 _ U3 eq_refl eq_refl U1 U2). right. lia.
+      * exists (set_panic s PanicWaitGroup). right. split.
+        -- exists (LFinish z). rewrite (step_late _ _ _ pm Hpan Hmain). cbn. rewrite Hfw, Hwr, Hw0. reflexivity.
         -- apply skel_rel_panic; [exact Hp | discriminate].
+    + (* WF6 *) discriminate.
 Qed.
